@@ -807,6 +807,92 @@ impl<'a> G<'a> {
     }
 
     /// cooperative drain: acknowledge settings, open budgets, poll until nothing moves
+    /// C07: end the connection in one of the ways a connection ends, drop the connection object, then ask every
+    /// handle once more: nothing may stay pending.  Optionally with a user ping whose pong has arrived but has
+    /// not been collected yet.
+    fn ending_epilogue(&mut self) {
+        let ping = self.rng.chance(1, 3);
+        if ping {
+            self.op("cn_takeping".to_string());
+            let a = self.op("cn_ping".to_string());
+            if Self::field(&a, "r=") == "ok" {
+                let a = self.op("cn_poll".to_string());
+                // echo the user ping
+                let tx = Self::field(&a, "tx=").to_string();
+                for f in tx.split(';') {
+                    let p: Vec<&str> = f.split(':').collect();
+                    if p.len() == 4 && p[0] == "P" && p[2] == "0" {
+                        if let Some(b) = crate::util::unhex(p[3]) {
+                            self.peer(wire(6, 1, 0, &b));
+                        }
+                    }
+                }
+                if self.rng.chance(2, 3) {
+                    self.op("cn_poll".to_string());
+                }
+                if self.rng.chance(1, 3) {
+                    self.op("cn_pollpong".to_string());
+                }
+            }
+        }
+        match self.rng.below(7) {
+            0 => {
+                self.op("cn_eof".to_string());
+                self.op("cn_poll".to_string());
+            }
+            1 => {
+                self.op("cn_rderr".to_string());
+                self.op("cn_poll".to_string());
+            }
+            2 => {
+                self.op("cn_wrerr".to_string());
+                self.op("cn_poll".to_string());
+            }
+            3 => {
+                // GOAWAY from the peer that covers everything, then a clean EOF
+                self.peer(wire(7, 0, 0, &[0x7f, 0xff, 0xff, 0xff, 0, 0, 0, 0]));
+                if self.rng.chance(1, 2) {
+                    self.op("cn_poll".to_string());
+                }
+                self.op("cn_eof".to_string());
+                self.op("cn_poll".to_string());
+            }
+            4 => {
+                self.peer(wire(7, 0, 0, &[0, 0, 0, 0, 0, 0, 0, 2]));
+                self.op("cn_poll".to_string());
+            }
+            5 => {
+                self.peer(wire(0, 0, 0, b"x")); // DATA on stream 0: a fatal protocol error
+                self.op("cn_poll".to_string());
+            }
+            _ => {}
+        }
+        self.op("cn_dropconn".to_string());
+        for k in 0..self.nslots.min(6) {
+            if self.role == "client" {
+                self.op(format!("cn_resp {}", k));
+            }
+            for _ in 0..40 {
+                // everything that was received before the end is still delivered
+                let a = self.op(format!("cn_read {}", k));
+                if !Self::field(&a, "r=").starts_with("data:") {
+                    break;
+                }
+            }
+            self.op(format!("cn_pollcap {}", k));
+            self.op(format!("cn_pollreset {}", k));
+            self.op(format!("cn_rtrailers {}", k));
+        }
+        if self.role == "client" {
+            self.op("cn_ready".to_string());
+        }
+        if ping {
+            self.op("cn_pollpong".to_string());
+            self.op("cn_ping".to_string());
+            self.op("cn_pollpong".to_string());
+        }
+    }
+
     fn drain(&mut self) {
         self.op("cn_budget inf".to_string());
         for _ in 0..6 {
@@ -912,6 +998,9 @@ pub fn generate(profile: &str, rng: &mut Rng, cases: usize, out: &mut dyn Write)
             g.inject_c09();
         } else if !g.dead {
             g.drain();
+            if g.rng.chance(1, 3) {
+                g.ending_epilogue();
+            }
         }
     }
     true
